@@ -191,6 +191,7 @@ EXCLUSIONS = {
     'fstring_expression_leading_brace': _has('fstr_lbrace'),
     'lone_formatted_value': _has('lone_fvalue'),
     'lambda_arguments_dropped': _has('lambda_args'),
+    'childless_fstring_not_external': _has('empty_joinedstr'),
     'called_name_only_in_closure_cell': lambda case, message: 'far_call_cell' in (case.get('features') or ()) and 'NameError' in message,
 }
 
